@@ -253,7 +253,11 @@ def check(ctx):
     vst = class_assigns(wr).get("_VALUE_STMT_TYPES")
     names = {unparse(e) for e in vst.elts} if isinstance(vst, ast.Tuple) else set()
     ctx.ob("R3", f"{BP}:_SubprocChainRaiseWrapper", "standalone wrapping covers Expr, Assign, AugAssign and AnnAssign statements", {"ast.Expr", "ast.Assign", "ast.AugAssign", "ast.AnnAssign"} <= names, key="value-stmt-types", detail=str(sorted(names)))
-    vb = flat(ctx, bp.func("_SubprocChainRaiseWrapper._visit_boolop"), depth=2, skip=("_recurse", "_wrap", "_boolop_contains_subproc"))
+    # the predicate that says "this chain holds a command" is found by what it does (it applies _is_subproc_helper_call),
+    # not by its name; it may also be written in place
+    vb_raw = bp.func("_SubprocChainRaiseWrapper._visit_boolop", raw=True)
+    PREDS = {c.func.id for c in calls_in(vb_raw) if isinstance(c.func, ast.Name) and bp.has(c.func.id) and isinstance(bp.get(c.func.id), FuncTypes) and any(call_name(x) == "_is_subproc_helper_call" for x in calls_in(bp.get(c.func.id), local=False))}
+    vb = flat(ctx, bp.func("_SubprocChainRaiseWrapper._visit_boolop"), depth=2, skip=("_recurse", "_wrap") + tuple(sorted(PREDS)))
     vcfg = CFG(vb)
     sets = [n for n in vcfg.nodes if n.kind == "stmt" and isinstance(n.ast, ast.Assign) and unparse(n.ast.targets[0]) == "self._inside_boolop" and const_value(n.ast.value) is True]
     # a reset writes False, or writes back a local that saved the flag before it was set (save/restore idiom)
@@ -281,18 +285,34 @@ def check(ctx):
         return any(ev3(t, atoms) is (not p) for t, p in vcfg.guards(w))
 
     entry_flag = {"self._inside_boolop": True} | {s_: True for s_ in saved}
-    okw = bool(wraps) and all(blocked(w, {"_boolop_contains_subproc(": False}) and blocked(w, entry_flag) for w in wraps)
+    vdefs_ = df.all_defs(vb)
+
+    def evidence(w):
+        """positive guards of w that look for a command in the chain: (guard text, expression, predicate function or None)"""
+        out = []
+        for t0, p0 in vcfg.guards(w):
+            for t, p_ in implied_facts(t0, p0):
+                e = t
+                if isinstance(t, ast.Name) and len(vdefs_.get(t.id, [])) == 1 and vdefs_[t.id][0].value is not None:
+                    e = vdefs_[t.id][0].value
+                fn_ = bp.get(e.func.id) if isinstance(e, ast.Call) and isinstance(e.func, ast.Name) and e.func.id in PREDS else None
+                looks = fn_ is not None or any(isinstance(x, ast.Call) and call_name(x) == "_is_subproc_helper_call" for x in ast.walk(e))
+                if p_ and looks:
+                    out.append((unparse(t), e, fn_))
+        return out
+
+    okw = bool(wraps) and all(evidence(w) and all(blocked(w, {gt: False}) for gt, _e, _f in evidence(w)) and blocked(w, entry_flag) for w in wraps)
     ctx.ob("R3", f"{BP}:_SubprocChainRaiseWrapper._visit_boolop", "only an outermost chain that contains a subprocess is wrapped", okw, key="wrap-condition")
-    bc = bp.func("_boolop_contains_subproc")
-    bparam = bc.args.args[0].arg
-    deep = False
-    for n in ast.walk(bc):
-        if isinstance(n, ast.Call) and call_name(n) in ("ast.walk",) and n.args and unparse(n.args[0]) == bparam:
-            deep = True
-        if isinstance(n, ast.Call) and call_name(n) == "_boolop_contains_subproc":
-            deep = True  # explicit recursion into nested chains
-    uses_pred = any(call_name(c) == "_is_subproc_helper_call" for c in calls_in(bc, local=False))
-    ctx.ob("R3", f"{BP}:_boolop_contains_subproc", "the predicate that decides whether the outermost chain is wrapped looks for subprocess operands at any depth (chains of groups such as `a && b || c && d` have no plain command directly under the top operator)", deep and uses_pred, key="contains-subproc|shallow", where=loc(bc))
+    for gt, e_, bc in [ev_ for w in wraps for ev_ in evidence(w)][:1]:
+        scope = bc if bc is not None else e_
+        deep = False
+        for n in ast.walk(scope):
+            if isinstance(n, ast.Call) and call_name(n) in ("ast.walk",) and n.args and isinstance(n.args[0], ast.Name):
+                deep = True
+            if bc is not None and isinstance(n, ast.Call) and call_name(n) == bc.name:
+                deep = True  # explicit recursion into nested chains
+        uses_pred = any(isinstance(c, ast.Call) and call_name(c) == "_is_subproc_helper_call" for c in ast.walk(scope))
+        ctx.ob("R3", f"{BP}:{bc.name if bc is not None else '_SubprocChainRaiseWrapper._visit_boolop'}", "the predicate that decides whether the outermost chain is wrapped looks for subprocess operands at any depth (chains of groups such as `a && b || c && d` have no plain command directly under the top operator)", deep and uses_pred, key="contains-subproc|shallow", where=loc(bc if bc is not None else e_))
     mw = bp.func("_SubprocChainRaiseWrapper._maybe_wrap_stmt_value")
     ok = any(call_name(c) == "_is_raising_subproc_helper_call" for c in calls_in(mw)) and any("self._wrap(" in unparse(n) for n in walk_local(mw) if isinstance(n, ast.Assign))
     ctx.ob("R3", f"{BP}:_SubprocChainRaiseWrapper._maybe_wrap_stmt_value", "a standalone raising-helper call is wrapped", ok, key="standalone-wrap")
